@@ -13,7 +13,7 @@
 From Coq Require Import ZArith List Bool Permutation Sorting.Sorted String.
 From Gen Require Import MorganConsts MorganBody SmilesKeys AtomStereoMark.
 From Model Require Import PyBase PyHash Graph Morgan Stereo StereoRegistry Writer ChiralMorgan.
-From Proofs Require Import MorganProofs WriterInvProofs WriterStereoExt BfsExt BfsExt2 TraverseOrderExt InsertionOrderExt InsertionOrderExt2 ChiralMorganProofs StereoProofs StereoOrderExt StereoOrderExt2 RegistryRemapExt EnvLaws CtMapOrderExt AllStereoExt SameStereo EqHashExt ChiralDiscreteExt ChiralOrderExt MorganChargeRefuted ChiralReinsertExt ChiralReinsertBool MorganConstsProofs MolPermDecide ChiralReinsertEq MorganBodyTie SmilesKeysTie DiffFuelExt DiffFuelExt2 AtomStereoMarkTie.
+From Proofs Require Import MorganProofs WriterInvProofs WriterStereoExt BfsExt BfsExt2 TraverseOrderExt InsertionOrderExt InsertionOrderExt2 ChiralMorganProofs StereoProofs StereoOrderExt StereoOrderExt2 RegistryRemapExt EnvLaws CtMapOrderExt AllStereoExt SameStereo EqHashExt ChiralDiscreteExt ChiralOrderExt MorganChargeRefuted ChiralReinsertExt ChiralReinsertBool MorganConstsProofs MolPermDecide ChiralReinsertEq MorganBodyTie SmilesKeysTie DiffFuelExt DiffFuelExt2 AtomStereoMarkTie MorganWlRefuted.
 Import ListNotations.
 Open Scope Z_scope.
 
@@ -1247,3 +1247,20 @@ Theorem C01_stereo_mark_translated_example :
   g_stereo_mark g4 default_opts tabs4 2 [(2, [1; 3; 4; 5]); (1, [2]); (3, [2]); (4, [2]); (5, [2])] (c 0) = Ok "@"%string.
 Proof. exact stereo_mark_translated_example. Qed.
 Print Assumptions C01_stereo_mark_translated_example.
+
+(* ---- REFUTED for the faithful model (known finding canon-differs:wl-equivalent-components): Morgan cannot tell apart non-isomorphic
+   components whose atoms are pairwise Weisfeiler-Lehman equivalent.  For EVERY hash function and every common initial invariant c,
+   `_morgan` on the disjoint union of a three-ring and a six-ring (cyclopropane + cyclohexane) gives rank 1 to all nine atoms: the
+   weights are not discrete, the start atom of the first component is chosen among tied atoms (set order), and the order of the
+   components in the canonical string follows atom numbers / input order.  The discreteness hypothesis of the writer theorems is
+   therefore necessary for multi-component molecules too. *)
+Theorem C01_morgan_wl_equivalent_components_one_class : forall (h : list Z -> Z) (c : Z),
+  morgan h (c3c6_atoms c) c3c6_adj = Ok (map (fun n => (n, 1)) c3c6_ids).
+Proof. exact morgan_wl_equivalent_components_one_class. Qed.
+Print Assumptions C01_morgan_wl_equivalent_components_one_class.
+
+Theorem C01_morgan_wl_equivalent_components_refuted :
+  ~ (forall (h : list Z -> Z) (atoms : labels) (adj : iadj) (r : labels) (n m : Z), morgan h atoms adj = Ok r ->
+       atoms = c3c6_atoms 7 -> adj = c3c6_adj -> n = 1 -> m = 4 -> zget r n <> zget r m).
+Proof. exact morgan_wl_equivalent_components_refuted. Qed.
+Print Assumptions C01_morgan_wl_equivalent_components_refuted.
